@@ -55,6 +55,10 @@ impl RateLimit {
 		let mut limits = vec![];
 		for (nb, raw_duration) in raw_limits.iter() {
 			let parsed_duration = parse_duration(raw_duration)?;
+			if *nb == 0 {
+				let msg = format!("rate limit of 0 request per {raw_duration}: no request could ever be sent");
+				return Err(msg.into());
+			}
 			limits.push((*nb, parsed_duration));
 		}
 		limits.sort_by(|a, b| a.1.partial_cmp(&b.1).unwrap());
